@@ -242,20 +242,20 @@ NOT_YET = {}
 # additions made after the seeded-change waves (DESIGN.md Appendix C.6); appended to the level text
 ADDENDA = {
     "C01": "Coefficient atoms that only the compiled route decides (product divisors, negative powers, x-(-y), literals near 0/1/-1, both orientations of -,/) are always part of the quick selection.",
-    "C02": "Extreme breakpoint patterns (tiny/huge/half-ulp spans); results of earlier scalar calls are compared again after later calls (no aliasing).",
+    "C02": "Extreme breakpoint patterns (tiny/huge/half-ulp spans); results of earlier scalar calls are compared again after later calls (no aliasing); scattered tensor-product evaluation with 2-axis coordinate arrays in C, Fortran and transposed-view layouts.",
     "C03": "Rows with THB-admissible marking (refine(..., truncate=True)); warm-object variants (assemble, refine the same object in one or two calls, assemble) and a retry after a failing assemble_matrix() vs fresh objects. ~1050 states in the quick tier.",
     "C04": "Rows with repeated coarse knots, graded (non-uniform, per-direction different) coarse breakpoints, chains of single-cell marks to depth 6, warm-object cache queries; the big thorough rows are explored breadth-first up to a state cap that is reported in the evidence.",
     "C05": "Rows with THB-admissible marking and graded breakpoints; boundary spaces (knot vectors, represent_fine); prolongate_to also on warm objects and across 2-3 refinement calls.",
     "C06": "Atoms with mirrored non-commutative operands, product divisors, literals close to the folding constants.",
     "C07": "Scattered-point routes also with Fortran-ordered and strided coordinate arrays.",
-    "C08": "3D vector forms with non-square and symmetric blocks (stokesB3D, stokesBT3D, divdiv3D) and 'twin' spaces (equal sizes, different sparsity patterns per direction) in the quick lattice; the updatable form uses the field and its derivative.",
+    "C08": "3D vector forms with non-square and symmetric blocks (stokesB3D, stokesBT3D, divdiv3D) and 'twin' spaces (equal sizes, different sparsity patterns per direction) in the quick lattice; the updatable form uses the field and its derivative; an 'mlb' result is also applied to every unit vector, all results kept until the end, and compared with the reference matrix.",
     "C09": "3D fast-assembler spaces with ascending degrees.",
     "C11": "A row with THB-admissible marking; adaptive loops are replayed call by call with index queries in between.",
     "C12": "An end-to-end subset (all 12 public methods, dense mass matrix, coarse step/tolerance) is part of the quick tier.",
     "C13": "Mutant 'same term added once more'; sequences add / hash() / add / compile on one form object.",
     "C14": "ring6 in the quick tier; grids whose patches carry different tensor-product spaces; Dirichlet condition lists in grouped, interleaved, reversed and alternating order.",
-    "C15": "Arrays returned by nonzero() are shifted in place by the caller and the query repeated; product / assignment of new data / product on one MLMatrix.",
-    "C16": "Integer and float32 arguments (on half-integer operands), column-major operands, operands unchanged after the factory call, second solver from the same object, Kronecker solver with one object as several factors.",
+    "C15": "Arrays returned by nonzero() are shifted in place by the caller and the query repeated; product / assignment of new data / product on one MLMatrix; the results of all products dot(e_j) are kept and compared again after the last one (no aliasing).",
+    "C16": "Integer and float32 arguments (on half-integer operands), column-major operands, operands unchanged after the factory call, second solver from the same object, Kronecker solver with one object as several factors; results of earlier applications of an operator are kept and compared again after later ones (no aliasing).",
     "C17": "Orientation-reversing affine map, annulus shrunk by 1e-3, per-axis different node schemes, physical data vs pull-back on hierarchical spaces with a geometry.",
     "C19": "derivative() called again after the coefficients changed (assignment, in place, through the caller's array).",
     "C20": "Every pair of artefacts damaged at once; the same-form two-process schedules also on a cache whose entry is damaged.",
